@@ -11,7 +11,7 @@ import (
 
 var (
 	idxSignature = []byte{255, 't', 'O', 'c'}
-	idxMinLen    = idxHeaderSize + idxFanoutSize + idxCrcSize + len(idxSignature) + 40 // idx and pack hashes
+	idxMinLen    = idxHeaderSize + idxFanoutSize + 40 // header, fan-out, idx and pack hashes (empty pack)
 	idxSupported = uint32(2)
 )
 
@@ -36,10 +36,31 @@ func (s *PackScanner) loadIdxFile(idx billy.File) error {
 		return fmt.Errorf("malformed idx file: %w", err)
 	}
 
+	// Same structural checks as canonical Git's load_idx: the fan-out table
+	// must be monotonic and the file size must match the object count.
+	var count uint32
+	for i := range 256 {
+		n := binary.BigEndian.Uint32(mmap[idxHeaderSize+i*4:])
+		if n < count {
+			_ = cleanup()
+			return fmt.Errorf("%w: fan-out table is not monotonic at entry %d", ErrCorruptedIdx, i)
+		}
+		count = n
+	}
+	minSize := int64(idxHeaderSize+idxFanoutSize) + int64(count)*int64(s.hashSize+idxCrcSize+off32Size) + int64(2*s.hashSize)
+	maxSize := minSize
+	if count > 0 {
+		maxSize += int64(count-1) * off64Size
+	}
+	if sz := int64(len(mmap)); sz < minSize || sz > maxSize {
+		_ = cleanup()
+		return fmt.Errorf("%w: file size %d is inconsistent with object count %d", ErrCorruptedIdx, sz, count)
+	}
+
 	s.idxCleanup = cleanup
 	s.idxMmap = mmap
 
-	s.count = int(binary.BigEndian.Uint32(s.idxMmap[idxHeaderSize+idxFanoutSize-4:]))
+	s.count = int(count)
 	s.fanoutStart = idxHeaderSize
 	s.namesStart = s.fanoutStart + idxFanoutSize
 	s.crcStart = s.namesStart + (s.count * s.hashSize)
